@@ -33,10 +33,25 @@ def budget(tier):
             "soft_seconds": 300 if tier == "quick" else 3000}
 
 
+def _search3(seed):
+    from .. import search as S
+    return S.three_layer_search(seed)
+
+
+def _layered():
+    @st.composite
+    def go(draw):
+        atoms, conds = draw(gen.layered_base(3, 5, 7))
+        return gen.mk_case(atoms, conds, draw(gen.query_list(atoms, conds, 3, 5)))
+    return go()
+
+
 def strategy(tier):
     q = tier == "quick"
     return st.one_of(
         gen.strong_case(1, 5, 6, qlo=3, qhi=5),
+        _layered(),
+        st.integers(0, 2**40).map(_search3),
         gen.weak_case(1, 5, 6, qlo=3, qhi=5),
         rel.medium_case(8, 24 if q else 40, 24 if q else 40),
         rel.medium_case(8, 24 if q else 40, 24 if q else 40),
